@@ -42,7 +42,7 @@ def iso_core(rng, coolant, with_pins=False, setup=None, gap_model='none'):
              for i, (_, _, n) in enumerate(lay)]
     c = make_core(rng, types, lay, flows, gap_model=gap_model,
                   bypass_fraction=(0.0 if gap_model == 'none' else 0.03),
-                  coolant=coolant, power_order=1, ncell=2,
+                  coolant=coolant, power_order=1, ncell=3, own_cells=True,
                   setup=dict({'axial_mesh_size': 0.0005,
                               'axial_plane': [0.15, 0.3, 0.45]},
                              **(setup or {})))
@@ -97,14 +97,16 @@ def pair_trace(args):
     ev = []
     try:
         try:
-            r1, s1 = fields.run_fields(dassh, core_case, str(d / 'a'),
-                                       every=100)
-            r2, s2 = fields.run_fields(dassh, alt_case, str(d / 'b'),
-                                       every=100)
-            if sorted(s1) != sorted(s2) or not np.array_equal(r1.z, r2.z):
+            # each run in its own interpreter: state left behind by one run
+            # (module- or class-level) must not be able to hide in the other
+            z1, s1 = fields.run_fields_isolated(core_case, str(d / 'a'),
+                                                every=100)
+            z2, s2 = fields.run_fields_isolated(alt_case, str(d / 'b'),
+                                                every=100)
+            if sorted(s1) != sorted(s2) or not np.array_equal(z1, z2):
                 ev.append({'e': 'Cmp', 'what': 'SameAxialPlanes', 'num': 1,
-                           'den': 1, 'tol': 0, 'a': [len(r1.z)],
-                           'b': [len(r2.z)]})
+                           'den': 1, 'tol': 0, 'a': [len(z1)],
+                           'b': [len(z2)]})
             else:
                 for k in sorted(s1):
                     a, b = s1[k]['asm'][idx], s2[k]['asm'][alt_idx]
@@ -162,6 +164,11 @@ def run(tier, res, replay=None):
     pairs.append(('swapped-positions', base, a, sw, b))
     pins = cores[1][1]
     pairs.append(('alone-vs-core-pins', pins, 3, alone_case(pins, 3), 0))
+    # (adiabatic, so that alone and in-core runs are comparable)
+    upd = iso_core(rng, 'sodium', setup={'param_update_tol': 0.02})
+    for idx in (1, 3):
+        pairs.append((f'alone-vs-core-updtol-{idx}', upd, idx,
+                      alone_case(upd, idx), 0))
     # an assembly declared by a position-range line in non-SI units, against
     # the same assembly alone: what others share its input line must not
     # matter
